@@ -114,3 +114,59 @@ Definition ext_of (blocks : list netblock) : list family := [(ipv4_family, map e
 Definition mk (a0 a1 a2 a3 p : N) : netblock := {| o0 := a0; o1 := a1; o2 := a2; o3 := a3; plen := p |}.
 Definition nb_eqb (x y : netblock) : bool :=
   (o0 x =? o0 y) && (o1 x =? o1 y) && (o2 x =? o2 y) && (o3 x =? o3 y) && (plen x =? plen y).
+
+(* ---------------------------------------------------------------------------------------------
+   The refresh endpoint (roleRequestingCert.go refreshRoleRequestingCertGenHandler +
+   parseRefreshRoleCertGenParams): the request is authenticated by the presented certificate from a
+   peer inside its blocks; the new certificate is built from the presented certificate's identity and
+   netblocks and the submitted public key.  The form the request carries - any parameter names with
+   any values: identity, requestor_netblock, target_netblock, duration, unknown ones - is an input of
+   the model that nothing reads (the public key is abstracted to "acceptable or not"). *)
+Definition form := list (bs * bs).
+Record rcert := { rc_cn : bs; rc_ext : list family }.
+
+Definition refresh (c : rcert) (p : peer) (f : form) (key_ok : bool) : option (bs * list netblock) :=
+  if verify_ip (rc_ext c) p then
+    if key_ok then match extract (rc_ext c) with Some bl => Some (rc_cn c, bl) | None => None end
+    else None
+  else None.
+
+Definition minted (cn : bs) (blocks : list netblock) : rcert := {| rc_cn := cn; rc_ext := ext_of blocks |}.
+
+(* any number of refreshes, each from its own peer with its own form *)
+Fixpoint refresh_chain (c : rcert) (steps : list (peer * form)) : option rcert :=
+  match steps with
+  | [] => Some c
+  | (p, f) :: r => match refresh c p f true with
+                   | Some (id, bl) => refresh_chain (minted id bl) r
+                   | None => None
+                   end
+  end.
+
+(* a refresh that honours a requestor_netblock parameter with a containment test that looks at the
+   requested block's base address only (kept as the refuted variant) *)
+Definition refresh_narrowing_by_base (c : rcert) (p : peer) (requested : list netblock) : option (bs * list netblock) :=
+  if verify_ip (rc_ext c) p then
+    match extract (rc_ext c) with
+    | Some bl =>
+        if forallb (fun r => existsb (fun b => contains b (V4 (o0 r) (o1 r) (o2 r) (o3 r))) bl) requested
+        then Some (rc_cn c, match requested with [] => bl | _ => requested end) else None
+    | None => None
+    end
+  else None.
+
+Definition blocks_eqb (x y : list netblock) : bool :=
+  Nat.eqb (length x) (length y) && forallb (fun xy => nb_eqb (fst xy) (snd xy)) (combine x y).
+
+(* ---------------------------------------------------------------------------------------------
+   The request side of minting.  net.ParseCIDR("a.b.c.d/p") returns the IPNet whose address is
+   MASKED with the prefix mask (the text may name any address of the block); that canonical block is
+   what parseRoleCertGenParams hands to GenIPRestrictedX509Cert.  Decimal parsing of the text stays
+   with the library (run in front of the model); [cidr_ok] is what a CIDR text can denote. *)
+Definition canon (b : netblock) : netblock :=
+  mk (N.land (o0 b) (mask_octet (plen b) 0)) (N.land (o1 b) (mask_octet (plen b) 1))
+     (N.land (o2 b) (mask_octet (plen b) 2)) (N.land (o3 b) (mask_octet (plen b) 3)) (plen b).
+Definition cidr_ok (b : netblock) : bool :=
+  (plen b <=? 32) && is_byte (o0 b) && is_byte (o1 b) && is_byte (o2 b) && is_byte (o3 b).
+Definition mint_request (cn : bs) (req : list netblock) : rcert := minted cn (map canon req).
+
